@@ -1,7 +1,12 @@
 import Sozu.H2Wire.Lemmas
 /-
-Property C15 (wire layer): theorems about the model of `parser.rs`,
-`serializer.rs` and `H2FloodDetector` (`Sozu/H2Wire/Model.lean`).
+Property C15 (wire layer): "no HTTP/2 input can crash, wedge or over-commit a
+worker", the part that is a statement about the frame decoder, the frame
+serializer and the flood detector. Theorems about the model
+`Sozu/H2Wire/Model.lean`; the model is tied to `/repo` by the differential
+harness `harness/src/bin/h2wire.rs`. Only `C15_*` theorems and non-vacuity
+examples live here; vocabulary (`classify`, `Flood.within`, …) and helper lemmas
+are in `Lemmas.lean`.
 -/
 namespace Sozu.H2Wire
 open Sozu
@@ -36,20 +41,24 @@ theorem C15_decoder_total_and_exact (input : Bytes) (mfs : Nat) :
     · exact frameHeader_fail e0
     · exact frameBody_fail e1
     · left; exact hc
-def typeByteOf (input : Bytes) : Nat := (input.drop 3).headD 0
-def flagsOf (input : Bytes) : Nat := (input.drop 4).headD 0
-def sidOf (input : Bytes) : Nat := mask31 (beVal ((input.drop 5).take 4))
-def payloadOf (input : Bytes) : Bytes := (input.drop 9).take (declaredLen input)
 
-def classify (t flags sid len mfs pad0 : Nat) : Outcome :=
-  if len > mfs then .error FRAME_SIZE_ERROR
-  else if sidValid (convertFrameType t) sid = false then .error PROTOCOL_ERROR
-  else bodyClass { len := len, ftype := convertFrameType t, flags := flags, sid := sid } pad0
+/-- all three outcomes occur: a WINDOW_UPDATE followed by a spare byte (13 of 14
+    bytes consumed), a truncated frame, an oversized length (reported as soon as
+    the three length bytes are there), a stream-id violation, and PADDED DATA
+    with an empty payload (nom `Eof` on a complete frame ⇒ PROTOCOL_ERROR). -/
+example : decode [0,0,4,8,0,0,0,0,1, 0,0,0,255, 77] 16384
+    = .ok { len := 4, ftype := .windowUpdate, flags := 0, sid := 1 } (.windowUpdate 1 255) 13 := by decide
+example : decode [0,0,4,8,0,0,0,0,1, 0,0,0] 16384 = .incomplete := by decide
+example : decode [0,64,1] 16384 = .err FRAME_SIZE_ERROR := by decide
+example : decode [0,0,0,0,0,0,0,0,0] 16384 = .err PROTOCOL_ERROR := by decide
+example : decode [0,0,0,0,8,0,0,0,1] 16384 = .err PROTOCOL_ERROR := by decide
 
-def outcome : Res → Option Outcome
-  | .ok _ _ _ => some .accept
-  | .err c => some (.error c)
-  | .incomplete => none
+/-- the body parser runs out of input on a complete payload only for PADDED on
+    an empty DATA/HEADERS payload or a HEADERS PRIORITY block that does not fit -/
+theorem C15_body_eof_on_complete_payload {i : Bytes} {h : Header} (e : frameBody i h = .eof) :
+    i.length < h.len ∨ eofOnComplete h := frameBody_eof e
+
+example : frameBody [0,0,0,10] { len := 4, ftype := .headers, flags := 0x20, sid := 1 } = .eof := by decide
 
 theorem C15_classification (input : Bytes) (mfs : Nat)
     (hc : Consts.h2FrameHeaderSize + declaredLen input ≤ input.length) :
@@ -83,5 +92,371 @@ theorem C15_classification (input : Bytes) (mfs : Nat)
     · simp only [Bool.not_eq_true] at hs
       simp only [hs, typeByteOf, sidOf, outcome, Bool.false_eq_true, if_false, if_true]
 
+example : classify 0 8 1 2 16384 2 = .error PROTOCOL_ERROR := by decide
+example : classify 0 8 1 2 16384 1 = .accept := by decide
+example : classify 6 0 0 7 16384 0 = .error FRAME_SIZE_ERROR := by decide
+example : classify 6 0 3 8 16384 0 = .error PROTOCOL_ERROR := by decide
+example : classify 0x42 0xff 7 3 16384 0 = .accept := by decide
+example : classify 4 0 0 390 16384 0 = .error FRAME_SIZE_ERROR := by decide
+example : Consts.h2FrameHeaderSize + declaredLen [0,0,2,0,8,0,0,0,1, 2,255] ≤ [0,0,2,0,8,0,0,0,1, 2,255].length := by
+  decide
+
+/-- DATA / HEADERS with PADDED: a pad length that is not smaller than the frame
+    payload (or no room for the pad-length byte at all) is PROTOCOL_ERROR. -/
+theorem C15_padding_rules_reject (i : Bytes) (h : Header) (hc : h.len ≤ i.length)
+    (ht : h.ftype = .data ∨ h.ftype = .headers)
+    (hp : flagSet h.flags Consts.h2FlagPadded = true)
+    (hbad : h.len = 0 ∨ h.len ≤ (i.take h.len).headD 0) :
+    bodyOutcome (frameBody i h) = .error PROTOCOL_ERROR := by
+  rw [bodyClass_eq i h hc]
+  unfold bodyClass
+  rcases ht with ht | ht
+  · simp only [ht, hp, ↓reduceIte]
+    rw [if_pos (by omega)]
+  · simp only [ht, hp, ↓reduceIte]
+    rw [if_pos (by omega)]
+
+example : bodyOutcome (frameBody [2, 255] { len := 2, ftype := .data, flags := 8, sid := 1 })
+    = .error PROTOCOL_ERROR := by decide
+
+/-- DATA with PADDED and a pad length below the payload length: accepted, and
+    the payload is exactly the bytes between the pad-length byte and the padding. -/
+theorem C15_padding_rules_data_accept (p : Nat) (r : Bytes) (h : Header)
+    (hc : h.len ≤ (p :: r).length) (ht : h.ftype = .data)
+    (hp : flagSet h.flags Consts.h2FlagPadded = true) (hlt : p < h.len) :
+    frameBody (p :: r) h =
+      .ok (.data h.sid (r.take (h.len - 1 - p)) (flagSet h.flags Consts.h2FlagEndStream))
+          ((p :: r).drop h.len) := by
+  obtain ⟨n, hn⟩ : ∃ n, h.len = n + 1 := ⟨h.len - 1, by omega⟩
+  have hlen : ¬ (p :: r).length < n + 1 := by omega
+  have hle : n ≤ r.length := by simp only [List.length_cons] at hc; omega
+  unfold frameBody dataFrame
+  simp only [ht, hlen, if_false, hn, List.take_succ_cons, stripPadding, hp, if_true, List.length_take]
+  have h1 : ¬ p > min n r.length := by omega
+  simp only [h1, if_false, unpad, List.length_take]
+  have h2 : p ≤ min n r.length := by omega
+  simp only [h2, if_true, List.take_take]
+  have h3 : min (min n r.length - p) n = n + 1 - 1 - p := by omega
+  rw [h3]
+
+example : frameBody [1, 7, 0, 9] { len := 3, ftype := .data, flags := 9, sid := 5 }
+    = .ok (.data 5 [7] true) [9] := by decide
+
+/-- unpadded DATA: the payload is the whole frame payload -/
+theorem C15_padding_rules_data_plain (i : Bytes) (h : Header)
+    (hc : h.len ≤ i.length) (ht : h.ftype = .data)
+    (hp : flagSet h.flags Consts.h2FlagPadded = false) :
+    frameBody i h =
+      .ok (.data h.sid (i.take h.len) (flagSet h.flags Consts.h2FlagEndStream)) (i.drop h.len) := by
+  have hlen : ¬ i.length < h.len := by omega
+  unfold frameBody dataFrame
+  simp [ht, hlen, stripPadding, hp, unpad, List.take_take]
+
+example : frameBody [1, 7, 0, 9] { len := 3, ftype := .data, flags := 0, sid := 5 }
+    = .ok (.data 5 [1, 7, 0] false) [9] := by decide
+
+theorem C15_settings_bounds {i : Bytes} {h : Header} {es : List (Nat × Nat)} {ack : Bool} {rest : Bytes}
+    (e : frameBody i h = .ok (.settings es ack) rest) :
+    h.ftype = .settings ∧ h.len % Consts.h2SettingsEntrySize = 0 ∧
+    es.length * Consts.h2SettingsEntrySize = h.len ∧
+    es.length ≤ Consts.h2MaxSettingsEntries ∧
+    (ack = true → es = []) := by
+  unfold frameBody at e
+  split at e
+  all_goals
+    try unfold dataFrame at e
+    try unfold headersFrame at e
+    try unfold priorityFrame at e
+    try unfold rstStreamFrame at e
+    try unfold pushPromiseFrame at e
+    try unfold continuationFrame at e
+    try unfold pingFrame at e
+    try unfold goAwayFrame at e
+    try unfold windowUpdateFrame at e
+    try unfold priorityUpdateFrame at e
+    try unfold unknownFrame at e
+  case h_7 ht =>
+    split at e
+    · cases e
+    · next hack =>
+      split at e
+      · next h6 =>
+        obtain ⟨hcap, hl, hle⟩ := settingsFrame_cap e
+        refine ⟨ht, h6, ?_, hcap, ?_⟩
+        · simp only [Consts.h2SettingsEntrySize] at *; omega
+        · intro ha
+          unfold settingsFrame at e
+          split at e
+          · cases e
+          · split at e
+            · cases e
+            · injection e with e1 e2
+              injection e1 with e3 e4
+              rw [← e4] at ha
+              simp only [ha, Bool.true_and, bne_iff_ne, ne_eq, Decidable.not_not] at hack
+              have : es.length = 0 := by rw [hl, hack]
+              exact List.eq_nil_of_length_eq_zero this
+      · cases e
+  all_goals grind
+
+example : frameBody [0,3,0,0,0,100, 0,4,0,1,0,0] { len := 12, ftype := .settings, flags := 0, sid := 0 }
+    = .ok (.settings [(3, 100), (4, 65536)] false) [] := by decide
+example : frameBody [] { len := 390, ftype := .settings, flags := 0, sid := 0 } = .fail FRAME_SIZE_ERROR := by decide
+example : frameBody [1,2,3,4,5,6] { len := 6, ftype := .settings, flags := 1, sid := 0 } = .fail FRAME_SIZE_ERROR := by
+  decide
+
+/-- The first SETTINGS of a connection is parsed by `settings_frame` directly.
+    When the length is a multiple of 6, or when `h2.rs` repeats the length check
+    in that state (`Consts.h2FirstSettingsChecksLen`, re-extracted from the
+    source on every run), the verdict is the one of the `frame_body` path. -/
+theorem C15_first_settings_partial (i : Bytes)
+    (h6 : Consts.h2FirstSettingsChecksLen = true ∨ i.length % Consts.h2SettingsEntrySize = 0) :
+    firstSettings i = frameBody i { len := i.length, ftype := .settings, flags := 0, sid := 0 } := by
+  have hack : flagSet 0 Consts.h2FlagAck = false := by decide
+  unfold firstSettings frameBody
+  rcases h6 with h | h
+  · by_cases h6 : i.length % Consts.h2SettingsEntrySize = 0 <;> simp [h, h6, hack]
+  · simp [h, hack]
+
+/-- … and as long as the check is absent (F24) a first SETTINGS whose length is
+    not a multiple of 6 (RFC 9113 §6.5: FRAME_SIZE_ERROR) is accepted, the tail
+    bytes being dropped. -/
+theorem C15_first_settings_counterexample (hopen : Consts.h2FirstSettingsChecksLen = false) :
+    firstSettings [0, 3, 0, 0, 0, 100, 0] = .ok (.settings [(3, 100)] false) [] ∧
+    frameBody [0, 3, 0, 0, 0, 100, 0] { len := 7, ftype := .settings, flags := 0, sid := 0 }
+      = .fail FRAME_SIZE_ERROR := by
+  refine ⟨?_, by decide⟩
+  unfold firstSettings
+  rw [hopen]
+  decide
+
+/-- Whatever shape the code has today: either the first-SETTINGS path enforces
+    the multiple-of-6 rule for every payload, or the 7-byte witness is accepted.
+    (No edit is needed here when F24 is repaired: the flag flips, this theorem
+    and the two above keep checking, and the harness then expects the GOAWAY.) -/
+theorem C15_first_settings_rule_or_witness :
+    (Consts.h2FirstSettingsChecksLen = true ∧
+      ∀ i : Bytes, firstSettings i = frameBody i { len := i.length, ftype := .settings, flags := 0, sid := 0 }) ∨
+    (Consts.h2FirstSettingsChecksLen = false ∧
+      firstSettings [0, 3, 0, 0, 0, 100, 0] = .ok (.settings [(3, 100)] false) []) := by
+  cases h : Consts.h2FirstSettingsChecksLen with
+  | true => exact Or.inl ⟨rfl, fun i => C15_first_settings_partial i (Or.inl h)⟩
+  | false => exact Or.inr ⟨rfl, (C15_first_settings_counterexample h).1⟩
+
+/-- on either path the number of entries respects the allocation cap -/
+theorem C15_first_settings_cap {i : Bytes} {es : List (Nat × Nat)} {ack : Bool} {rest : Bytes}
+    (e : firstSettings i = .ok (.settings es ack) rest) : es.length ≤ Consts.h2MaxSettingsEntries := by
+  unfold firstSettings at e
+  split at e
+  · cases e
+  · exact (settingsFrame_cap e).1
+
+example : firstSettings [0, 3, 0, 0, 0, 100] = .ok (.settings [(3, 100)] false) [] := by decide
+example (i : Bytes) (h : i.length = 390) : firstSettings i = .fail FRAME_SIZE_ERROR := by
+  unfold firstSettings settingsFrame
+  simp [h, Consts.h2SettingsEntrySize, Consts.h2MaxSettingsEntries]
+
+/-- `gen_frame_header` then `frame_header` is the identity on every header the
+    parser can produce (reserved bit cleared) -/
+theorem C15_decode_encode_header (h : Header) (rest : Bytes) (mfs : Nat)
+    (hl : h.len < 16777216) (hm : h.len ≤ mfs) (hf : h.flags < 256) (hw : h.ftype.wf)
+    (hs : sidValid h.ftype (mask31 h.sid) = true) :
+    frameHeader (genFrameHeader h ++ rest) mfs = .ok { h with sid := mask31 h.sid } rest := by
+  rw [frameHeader_gen, convert_serialize _ hw, Nat.mod_eq_of_lt hl, Nat.mod_eq_of_lt hf]
+  have : ¬ h.len > mfs := by omega
+  simp [this, hs]
+
+example : frameHeader (genFrameHeader { len := 300, ftype := .headers, flags := 0x25, sid := 0x80000003 } ++ [9]) 16384
+    = .ok { len := 300, ftype := .headers, flags := 0x25, sid := 3 } [9] := by decide
+example : (FType.unknown 0x42).wf := by unfold FType.wf; decide
+
+theorem C15_decode_encode_rst_stream (sid code mfs : Nat) (hm : Consts.h2RstStreamPayloadSize ≤ mfs)
+    (hs : mask31 sid ≠ 0) (hc : code < 4294967296) :
+    decode (genRstStream sid code) mfs =
+      .ok { len := Consts.h2RstStreamPayloadSize, ftype := .rstStream, flags := 0, sid := mask31 sid }
+          (.rstStream (mask31 sid) code) (genRstStream sid code).length := by
+  unfold genRstStream
+  have hh := C15_decode_encode_header
+    { len := Consts.h2RstStreamPayloadSize, ftype := .rstStream, flags := 0, sid := sid } (be32 code) mfs
+    (by simp [Consts.h2RstStreamPayloadSize]) hm (by simp) trivial (by simp [sidValid, hs])
+  have hv : beVal (be32 code) = code := by rw [beVal_be32]; omega
+  have hb : frameBody (be32 code)
+      { len := Consts.h2RstStreamPayloadSize, ftype := .rstStream, flags := 0, sid := mask31 sid } =
+      .ok (.rstStream (mask31 sid) code) [] := by
+    simp [frameBody, rstStreamFrame, Consts.h2RstStreamPayloadSize, be32] at hv ⊢
+    exact hv
+  rw [decode_of_ok hh hb]
+  simp
+
+example : decode (genRstStream 0x80000005 8) 16384
+    = .ok { len := 4, ftype := .rstStream, flags := 0, sid := 5 } (.rstStream 5 8) 13 := by decide
+/-- the excluded point: a RST_STREAM serialized for stream 0 is refused by the parser -/
+example : decode (genRstStream 0 8) 16384 = .err PROTOCOL_ERROR := by decide
+
+theorem C15_decode_encode_window_update (sid inc mfs : Nat) (hm : Consts.h2WindowUpdatePayloadSize ≤ mfs) :
+    decode (genWindowUpdate sid inc) mfs =
+      .ok { len := Consts.h2WindowUpdatePayloadSize, ftype := .windowUpdate, flags := 0, sid := mask31 sid }
+          (.windowUpdate (mask31 sid) (mask31 inc)) (genWindowUpdate sid inc).length := by
+  unfold genWindowUpdate
+  have hh := C15_decode_encode_header
+    { len := Consts.h2WindowUpdatePayloadSize, ftype := .windowUpdate, flags := 0, sid := sid }
+    (be32 (mask31 inc)) mfs
+    (by simp [Consts.h2WindowUpdatePayloadSize]) hm (by simp) trivial (by simp [sidValid])
+  have hv : beVal (be32 (mask31 inc)) = mask31 inc := by
+    rw [beVal_be32]; have := mask31_lt inc; omega
+  have hb : frameBody (be32 (mask31 inc))
+      { len := Consts.h2WindowUpdatePayloadSize, ftype := .windowUpdate, flags := 0, sid := mask31 sid } =
+      .ok (.windowUpdate (mask31 sid) (mask31 inc)) [] := by
+    simp [frameBody, windowUpdateFrame, Consts.h2WindowUpdatePayloadSize, be32] at hv ⊢
+    rw [hv, mask31_idem]
+  rw [decode_of_ok hh hb]
+  simp
+
+example : decode (genWindowUpdate 0 0xFFFFFFFF) 16384
+    = .ok { len := 4, ftype := .windowUpdate, flags := 0, sid := 0 } (.windowUpdate 0 0x7FFFFFFF) 13 := by decide
+
+theorem C15_decode_encode_goaway (last code mfs : Nat) (hm : Consts.h2GoawayPayloadSize ≤ mfs)
+    (hc : code < 4294967296) :
+    decode (genGoAway last code) mfs =
+      .ok { len := Consts.h2GoawayPayloadSize, ftype := .goAway, flags := 0, sid := 0 }
+          (.goAway (mask31 last) code []) (genGoAway last code).length := by
+  unfold genGoAway
+  have hh := C15_decode_encode_header
+    { len := Consts.h2GoawayPayloadSize, ftype := .goAway, flags := 0, sid := 0 }
+    (be32 (mask31 last) ++ be32 code) mfs
+    (by simp [Consts.h2GoawayPayloadSize]) hm (by simp) trivial (by simp [sidValid, mask31])
+  have h0 : mask31 0 = 0 := by simp [mask31]
+  rw [h0] at hh
+  have hv1 : beVal (be32 (mask31 last)) = mask31 last := by
+    rw [beVal_be32]; have := mask31_lt last; omega
+  have hv2 : beVal (be32 code) = code := by rw [beVal_be32]; omega
+  have hb : frameBody (be32 (mask31 last) ++ be32 code)
+      { len := Consts.h2GoawayPayloadSize, ftype := .goAway, flags := 0, sid := 0 } =
+      .ok (.goAway (mask31 last) code []) [] := by
+    simp [frameBody, goAwayFrame, Consts.h2GoawayPayloadSize, be32] at hv1 hv2 ⊢
+    rw [hv1, hv2, mask31_idem]; simp
+  rw [List.append_assoc, decode_of_ok hh hb]
+  simp
+
+example : decode (genGoAway 0xFFFFFFFF 11) 16384
+    = .ok { len := 8, ftype := .goAway, flags := 0, sid := 0 } (.goAway 0x7FFFFFFF 11 []) 17 := by decide
+
+theorem C15_decode_encode_ping_ack (payload : Bytes) (mfs : Nat) (hp : payload.length = Consts.h2PingPayloadSize)
+    (hm : Consts.h2PingPayloadSize ≤ mfs) :
+    decode (genPingAck payload) mfs =
+      .ok { len := Consts.h2PingPayloadSize, ftype := .ping, flags := Consts.h2FlagAck, sid := 0 }
+          (.ping payload true) (genPingAck payload).length := by
+  have hg : genPingAck payload =
+      genFrameHeader { len := Consts.h2PingPayloadSize, ftype := .ping, flags := Consts.h2FlagAck, sid := 0 }
+        ++ payload := by
+    have : genFrameHeader { len := Consts.h2PingPayloadSize, ftype := .ping, flags := Consts.h2FlagAck, sid := 0 }
+        = Consts.h2PingAckHeader := by decide
+    rw [this]; rfl
+  have hh := C15_decode_encode_header
+    { len := Consts.h2PingPayloadSize, ftype := .ping, flags := Consts.h2FlagAck, sid := 0 } payload mfs
+    (by simp [Consts.h2PingPayloadSize]) hm (by simp [Consts.h2FlagAck]) trivial (by simp [sidValid, mask31])
+  have h0 : mask31 0 = 0 := by simp [mask31]
+  rw [h0] at hh
+  have hb : frameBody payload
+      { len := Consts.h2PingPayloadSize, ftype := .ping, flags := Consts.h2FlagAck, sid := 0 } =
+      .ok (.ping payload true) [] := by
+    have ha : flagSet Consts.h2FlagAck Consts.h2FlagAck = true := by decide
+    simp only [Consts.h2PingPayloadSize] at hp
+    simp [frameBody, pingFrame, Consts.h2PingPayloadSize, hp, ha]
+    rw [← hp]; simp
+  rw [hg, decode_of_ok hh hb]
+  simp
+
+example : decode (genPingAck [1,2,3,4,5,6,7,8]) 16384
+    = .ok { len := 8, ftype := .ping, flags := 1, sid := 0 } (.ping [1,2,3,4,5,6,7,8] true) 17 := by decide
+
+theorem C15_decode_encode_settings_ack (mfs : Nat) :
+    decode Consts.h2SettingsAck mfs =
+      .ok { len := 0, ftype := .settings, flags := Consts.h2FlagAck, sid := 0 } (.settings [] true) 9 := by
+  have hh : frameHeader Consts.h2SettingsAck mfs =
+      .ok { len := 0, ftype := .settings, flags := Consts.h2FlagAck, sid := 0 } [] := by
+    have e : Consts.h2SettingsAck =
+        genFrameHeader { len := 0, ftype := .settings, flags := Consts.h2FlagAck, sid := 0 } ++ [] := by decide
+    rw [e]
+    have := C15_decode_encode_header { len := 0, ftype := .settings, flags := Consts.h2FlagAck, sid := 0 } [] mfs
+      (by simp) (by simp) (by simp [Consts.h2FlagAck]) trivial (by simp [sidValid, mask31])
+    simpa [mask31] using this
+  have hb : frameBody [] { len := 0, ftype := .settings, flags := Consts.h2FlagAck, sid := 0 } =
+      .ok (.settings [] true) [] := by decide
+  rw [decode_of_ok hh hb]
+  rfl
+
+theorem C15_decode_encode_settings (s : Settings) (mfs : Nat) (hw : s.wf)
+    (hm : Consts.h2SettingsEntrySize * Consts.h2SettingsCount ≤ mfs) :
+    decode (genSettings s) mfs =
+      .ok { len := Consts.h2SettingsEntrySize * Consts.h2SettingsCount, ftype := .settings, flags := 0, sid := 0 }
+          (.settings (settingsEntries s) false) (genSettings s).length := by
+  unfold genSettings
+  have hh := C15_decode_encode_header
+    { len := Consts.h2SettingsEntrySize * Consts.h2SettingsCount, ftype := .settings, flags := 0, sid := 0 }
+    (genEntries (settingsEntries s)) mfs
+    (by simp [Consts.h2SettingsEntrySize, Consts.h2SettingsCount]) hm (by simp) trivial (by simp [sidValid, mask31])
+  have h0 : mask31 0 = 0 := by simp [mask31]
+  rw [h0] at hh
+  obtain ⟨w1, w2, w3, w4, w5⟩ := hw
+  have hes : ∀ e ∈ settingsEntries s, e.1 < 65536 ∧ e.2 < 4294967296 := by
+    intro e he
+    simp only [settingsEntries, List.mem_cons, List.mem_nil_iff, or_false] at he
+    have hb : ∀ b : Bool, b2n b < 4294967296 := by intro b; cases b <;> decide
+    rcases he with rfl | rfl | rfl | rfl | rfl | rfl | rfl | rfl <;>
+      refine ⟨by simp only; decide, ?_⟩ <;> simp only <;>
+      first
+        | assumption
+        | exact hb _
+  have hlen : (genEntries (settingsEntries s)).length = 48 := by
+    rw [genEntries_length]; simp [settingsEntries]
+  have hb : frameBody (genEntries (settingsEntries s))
+      { len := Consts.h2SettingsEntrySize * Consts.h2SettingsCount, ftype := .settings, flags := 0, sid := 0 } =
+      .ok (.settings (settingsEntries s) false) [] := by
+    have hf : flagSet 0 Consts.h2FlagAck = false := by decide
+    have ht : List.take 48 (genEntries (settingsEntries s)) = genEntries (settingsEntries s) := by
+      rw [← hlen]; simp
+    have hd : List.drop 48 (genEntries (settingsEntries s)) = [] := by
+      rw [← hlen]; simp
+    simp [frameBody, settingsFrame, Consts.h2SettingsEntrySize, Consts.h2SettingsCount, Consts.h2MaxSettingsEntries,
+      hf, hlen, ht, hd, parseSettings_genEntries _ hes]
+  rw [decode_of_ok hh hb]
+  simp
+
+example : (Settings.mk 4096 false 100 65535 16384 65536 false true).wf := by unfold Settings.wf; decide
+example : decode (genSettings (Settings.mk 4096 false 100 65535 16384 65536 false true)) 16384
+    = .ok { len := 48, ftype := .settings, flags := 0, sid := 0 }
+        (.settings [(1, 4096), (2, 0), (3, 100), (4, 65535), (5, 16384), (6, 65536), (8, 0), (9, 1)] false) 57 := by
+  decide
+
+/-- For every threshold configuration and every sequence of frames/events on a
+    connection: as long as no violation has been returned every counter is
+    within its threshold (so a counter passes its threshold at most once, in
+    the step that returns the violation), a returned violation is
+    ENHANCE_YOUR_CALM with `count > threshold`, and at that point no counter is
+    more than one frame above its threshold. `floodRun` stops at the first
+    violation, so the statement applies to every prefix of the sequence. -/
+theorem C15_flood_bounded (cfg : FloodCfg) (ops : List FloodOp) (hops : ∀ op ∈ ops, op.wf) :
+    ((floodRun (Flood.new cfg) ops).2 = none → (floodRun (Flood.new cfg) ops).1.within 0) ∧
+    (∀ v, (floodRun (Flood.new cfg) ops).2 = some v →
+      v.1 = ENHANCE_YOUR_CALM ∧ v.2.2 < v.2.1 ∧ (floodRun (Flood.new cfg) ops).1.within 1) :=
+  floodRun_spec _ ops hops (Flood.new_within cfg)
+
+/-- a run that ends at the thresholds without a violation, one that trips, and
+    one where the decay of the window keeps a slow peer below the threshold -/
+example : (floodRun (Flood.new cfgSmall) [.ping, .ping, .rstReceived false, .settings 64]).2 = none := by decide
+example : (floodRun (Flood.new cfgSmall) [.ping, .ping, .rstReceived false, .settings 64]).1.glitch = 64 := by decide
+example : (floodRun (Flood.new cfgSmall) [.settings 64, .ping]).2 = some (ENHANCE_YOUR_CALM, 64, 2) := by decide
+example : (floodRun (Flood.new cfgSmall) [.ping, .ping, .ping, .ping]).2 = some (ENHANCE_YOUR_CALM, 3, 2) := by decide
+example : (floodRun (Flood.new cfgSmall) [.ping, .ping, .age 1000, .ping, .ping, .ping]).2
+    = some (ENHANCE_YOUR_CALM, 3, 2) := by decide
+example : (floodRun (Flood.new cfgSmall) [.ping, .ping, .age 1000, .ping, .age 1000, .ping]).2 = none := by decide
+example : ∀ op ∈ [FloodOp.ping, .settings 64, .age 1000], op.wf := by simp [FloodOp.wf]; decide
+
+/-- detection is immediate: one PING more than the threshold within a window -/
+theorem C15_flood_detects_default_ping :
+    (floodRun (Flood.new FloodCfg.default) (List.replicate (Consts.h2DefaultMaxPingPerWindow + 1) .ping)).2
+      = some (ENHANCE_YOUR_CALM, Consts.h2DefaultMaxPingPerWindow + 1, Consts.h2DefaultMaxPingPerWindow) := by
+  decide +kernel
 
 end Sozu.H2Wire
